@@ -140,7 +140,7 @@ class ReachTheTargetSim(GridWorldSimulation):
                     move_result = self.move_actor.process_action(agent, action, **kwargs)
                     if not move_result:
                         self.rewards[agent_id] -= 0.1
-                if self.target_done.get_done(agent):
+                if agent.active and self.target_done.get_done(agent):
                     self.rewards[agent_id] += 1
                     self.grid.remove(agent, agent.position)
                     agent.active = False
